@@ -15,7 +15,7 @@ MANIFEST = dict(
              "configured depth; spec invariants (Algo=Spec, index in range, conservation, unit integral) hold on all "
              "of them and every exported vector/history is replayed into the real classes with bin-exact comparison, "
              "the code under test compiled with assertions and sanitizers so an out-of-range write is attributed.",
-        note="Trusted: TLC, the lattice argument (values k/16, bin widths 2t/16), the text driver protocol. "
+        note="Unit covariance (HistScale.tla): every history is also replayed in power-of-two axis/weight units. Trusted: TLC, the lattice argument (values k/16, bin widths 2t/16), the text driver protocol. "
              "Not modelled: Process after Normalize, normalising an empty histogram, NaN/inf inputs.")
 
 
@@ -151,6 +151,14 @@ def run(ctx):
     if res.records:
         ctx.sample({"legacy_vector": res.records[0]})
 
+    # ---- 2a. unit covariance: the laws are checked by TLC on the lattice, the units come from the spec ----
+    ures = vlib.tlc("histogram", "MCHistScale", cfg="MCHistScale.cfg", timeout=900)
+    vlib.tlc_must_hold(ures, "HistScale: bin / content / normalisation covariance under a change of units")
+    ctx.add_tlc("MCHistScale", ures)
+    units = [tuple(u) for r in ures.records if "units" in r for u in r["units"]]
+    if len(units) < 3:
+        raise vlib.InfraError("HistScale exported no units: %s" % ures.records[:3])
+
     # ---- 2b. legacy histogram: relations between outputs of the real code (instances and relations from TLC) ----
     #   normalised: sum(pdf)*interval = 1 and the bin ratios equal those of the un-normalised run (any scale option)
     #   reuse: an object that processed other data before gives exactly what a fresh object gives
@@ -163,6 +171,16 @@ def run(ctx):
         cmds = [fresh(0), fresh(1)]
         if r["d2"]:
             cmds.append("legacyx %d 0 1 %s %d %s %d %s" % (r["n"], r["sc"], len(r["d2"]), d2, len(r["d"]), d))
+        else:
+            cmds.append("")
+        # the same data in another axis unit (power of two): same counts, normalised values divided by the unit
+        ea = [u[0] for u in units if u[0] != 0][i % len([u for u in units if u[0] != 0])]
+        ds = " ".join(repr(x / 4.0 * 2.0 ** ea) for x in r["d"])
+        cmds.append("legacyx %d 0 0 no 0 %d %s" % (r["n"], len(r["d"]), ds))
+        cmds.append("legacyx %d 0 1 no 0 %d %s" % (r["n"], len(r["d"]), ds))
+        # a default-constructed object = an object constructed from default options
+        cmds.append("legacyd %d %s" % (len(r["d"]), d))
+        cmds.append("legacyx 101 0 1 no 0 %d %s" % (len(r["d"]), d))
         items.append((i, cmds))
     results, crashes = vlib.run_items(exe, items)
     n_rel = 0
@@ -170,10 +188,22 @@ def run(ctx):
         ctx.count()
         sc = r["sc"]
         if i in crashes:
-            ctx.violation("Histogram:%s:crash" % sc, "driver aborted on %s: %s" % (r, crashes[i]), r)
+            what = "default-ctor" if "legacyd" in str(crashes[i]) else sc
+            ctx.violation("Histogram:%s:crash" % what, "driver aborted on %s: %s" % (r, crashes[i]), r)
             continue
         out = [x[0].split() if x else ["?"] for x in results[i]]
-        if any(o[0] != "legacy" for o in out):
+        blank = [k for k, cmd in enumerate(items[i][1]) if cmd == ""]
+        out = [o for k, o in enumerate(out) if k not in blank]
+        had_reuse = not blank
+        dflt, dflt_ref = out[-2], out[-1]
+        sraw, snrm = out[-4], out[-3]
+        out = out[:-4]
+        if dflt[0] != "legacy":
+            ctx.violation("Histogram:default-ctor:exception", "default-constructed legacy histogram failed on %s: %s" % (r, dflt), r)
+        elif dflt[1:] != dflt_ref[1:]:
+            ctx.violation("Histogram:default-ctor:differs", "default-constructed object gives %s, an object built from default options %s"
+                          % (dflt[1:8], dflt_ref[1:8]), r)
+        if any(o[0] != "legacy" for o in out + [sraw, snrm]):
             ctx.violation("Histogram:%s:exception" % sc, "legacy histogram failed on %s: %s" % (r, results[i]), r)
             continue
         raw = [float(t) for t in out[0][4:]]
@@ -184,7 +214,21 @@ def run(ctx):
             ctx.violation("Histogram:normalize:%s:integral" % sc, "sum(pdf)*interval = %r, not 1, for %s" % (sum(nrm) * iv, r), r)
         elif any(not vlib.close(nrm[a] * raw[b], nrm[b] * raw[a], 1e-12, 1e-300) for a in range(len(raw)) for b in range(a)):
             ctx.violation("Histogram:normalize:%s:ratios" % sc, "normalisation changed the bin ratios: %s vs %s for %s" % (nrm, raw, r), r)
-        if len(out) > 2:
+        ea = [u[0] for u in units if u[0] != 0][i % len([u for u in units if u[0] != 0])]
+        a = 2.0 ** ea
+        if r["mx"] != r["mn"]:
+            sr = [float(t) for t in sraw[4:]]
+            sn = [float(t) for t in snrm[4:]]
+            raw0 = [float(t) for t in out[0][4:]] if sc == "no" else None
+            if raw0 is None:
+                pass   # bond/angle scaling of the raw run is not unit covariant; the scaled runs use scale "no" and are compared with each other
+            elif sr != raw0:
+                ctx.violation("Histogram:unit-covariance:counts", "data times 2^%d gives counts %s, unscaled %s for %s" % (ea, sr, raw0, r), r)
+            if not vlib.close(sum(sn) * float(snrm[3]), 1.0, 1e-12, 0):
+                ctx.violation("Histogram:unit-covariance:integral", "data times 2^%d: sum(pdf)*interval = %r for %s" % (ea, sum(sn) * float(snrm[3]), r), r)
+            elif any(not vlib.close(sn[x] * sr[y], sn[y] * sr[x], 1e-12, 0) for x in range(len(sr)) for y in range(x)):
+                ctx.violation("Histogram:unit-covariance:ratios", "data times 2^%d: normalisation changed the bin ratios %s vs %s for %s" % (ea, sn, sr, r), r)
+        if had_reuse:
             ctx.traces += 1
             if out[2][1:] != out[1][1:]:
                 ctx.violation("Histogram:reuse:%s" % sc, "an object that processed %s before gives %s, a fresh object %s" % (r["d2"], out[2][1:], out[1][1:]), r)
@@ -207,24 +251,40 @@ def run(ctx):
     vlib.tlc_must_hold(res, "Histogram simulation")
     ctx.add_tlc("MCHistSim(simulate)", res)
     hists += res.records
+    # every history is replayed twice: in the lattice's own units and in one of the spec's other units (HistScale);
+    # a history that ever has a single bin keeps the axis unit (Initialize_ forces step_ = 1 there)
+    nh = len(hists)
+    def _unit(i, r):
+        if i < nh:
+            return (0, 0)
+        one_bin = r["cfg"]["n"] == 1 or any(op["a"] == "reinit" and op["n"] == 1 for op in r["h"])
+        cand = [u for u in units if u[0] == 0] if one_bin else units
+        return cand[i % len(cand)]
+    hists = hists + hists
     items = []
     for i, r in enumerate(hists):
-        cmds = [_new_cmd(r["cfg"])]
+        ea, ew = _unit(i, r)
+        A, W = 2.0 ** ea, 2.0 ** ew
+        c0 = r["cfg"]
+        cmds = ["new %r %r %d %d" % (c0["m"] / ONE * A, c0["mx"] / ONE * A, c0["n"], 1 if c0["per"] else 0)]
         for op in r["h"]:
             if op["a"] == "proc":
-                cmds.append("proc %r %d" % (op["v"] / ONE, op["w"]))
+                cmds.append("proc %r %r" % (op["v"] / ONE * A, op["w"] * W))
             elif op["a"] == "norm":
                 cmds.append("norm")
             elif op["a"] == "reinit":
-                cmds.append("reinit %r %r %d %d" % (op["m"] / ONE, op["mx"] / ONE, op["n"], 1 if op["per"] else 0))
+                cmds.append("reinit %r %r %d %d" % (op["m"] / ONE * A, op["mx"] / ONE * A, op["n"], 1 if op["per"] else 0))
             else:
                 cmds.append("clear")
             cmds.append("dump")
         items.append((i, cmds))
     results, crashes = vlib.run_items(exe, items)
     for i, r in enumerate(hists):
+        ea, ew = _unit(i, r)
+        A, W = 2.0 ** ea, 2.0 ** ew
+        ukey = "" if (ea, ew) == (0, 0) else ":unit-covariance"
         ctx.traces += 1
-        ctx.nontriv(("hist", str(r["cfg"]), str([(o["a"], o.get("v"), o.get("w")) for o in r["h"]])))
+        ctx.nontriv(("hist", ea, ew, str(r["cfg"]), str([(o["a"], o.get("v"), o.get("w")) for o in r["h"]])))
         mode = "periodic" if r["cfg"]["per"] else "open"
         if i in crashes:
             ctx.violation("HistogramNew:%s:history-crash" % mode, "driver aborted: " + crashes[i], r)
@@ -243,11 +303,11 @@ def run(ctx):
                 break
             bins, _ = _parse_bins(out[2 + 2 * j])
             if op["a"] == "norm":
-                exp = [b * ONE / op["den"] for b in op["b"]]
-                kind = "normalize"
+                exp = [b * ONE / op["den"] / A for b in op["b"]]
+                kind = "normalize" + ukey
             else:
-                exp = [float(b) for b in op["b"]]
-                kind = "clear" if op["a"] == "clear" else "reinit" if op["a"] == "reinit" else "weight"
+                exp = [float(b) * W for b in op["b"]]
+                kind = ("clear" if op["a"] == "clear" else "reinit" if op["a"] == "reinit" else "weight") + ukey
             if bins is None or len(bins) != len(exp) or any(not vlib.close(a, b, 1e-12, 0) for a, b in zip(bins, exp)):
                 ctx.violation("HistogramNew:%s:%s" % (mode, kind), "history step %d (%s): bins %s expected %s" % (j, op, bins, exp), r)
                 break
